@@ -290,7 +290,9 @@ func diff(a, b string, options []jd.Option) (string, bool, error) {
 		if err != nil {
 			return "", false, err
 		}
-		if str != "{}" {
+		// "{}" is also the merge patch of a non-object replaced by an
+		// empty object: decide by the diff, not by its rendering.
+		if len(diff) > 0 {
 			haveDiff = true
 		}
 	default:
